@@ -667,7 +667,7 @@ func runC16() error {
 	full := *tier == "thorough"
 	perWorker := 2500
 	if full {
-		perWorker = 30000
+		perWorker = 15000
 	}
 	if s := os.Getenv("VERIF_REFLECT_N"); s != "" {
 		fmt.Sscanf(s, "%d", &perWorker)
